@@ -301,6 +301,91 @@ def check_bonds(prog: Program, res: Result) -> None:
             res.ok("R-NO-OVERWRITE", inst, rv.loc(loops[0]))
 
 
+def _role_spreads(prog: Program, rv):
+    """[(setter name, {Change member: keyword} | None, call)] for setter calls
+    of rv whose only argument is a `**{..}` spread built from a role table."""
+    enum_vals = {}
+    ch = prog.classes.get("Change")
+    if ch is not None:
+        for k, v in ch.assigns.items():
+            if isinstance(v, ast.Constant):
+                enum_vals[k] = v.value
+
+    def member(e):
+        t = norm(e)
+        return t.split(".")[1] if t.startswith("Change.") and \
+            t.count(".") == 1 else None
+
+    def keyword_of(e):
+        if isinstance(e, ast.Constant) and isinstance(e.value, str):
+            return e.value
+        t = norm(e)
+        if t.startswith("Change.") and t.endswith(".value"):
+            return enum_vals.get(t.split(".")[1])
+        return None
+
+    def table_of(e, fn):
+        """{member: keyword} of a dict literal (or a local bound to one)."""
+        if isinstance(e, ast.Name):
+            defs = [a.value for a in ast.walk(fn) if isinstance(a, ast.Assign)
+                    and len(a.targets) == 1 and isinstance(
+                        a.targets[0], ast.Name) and a.targets[0].id == e.id]
+            if len(defs) != 1:
+                return None
+            e = defs[0]
+        if not isinstance(e, ast.Dict):
+            return None
+        out = {}
+        for k, v in zip(e.keys, e.values):
+            m_, kw = (member(k) if k is not None else None), keyword_of(v)
+            if m_ is None or kw is None:
+                return None
+            out[m_] = kw
+        return out
+    # callables handed around: (table, setter) pairs unrolled by the normal
+    # form, or a local alias of the bound method
+    res_ = []
+    for c in ast.walk(rv.node):
+        if not (isinstance(c, ast.Call) and len(c.keywords) == 1
+                and c.keywords[0].arg is None and not c.args):
+            continue
+        fname = c.func.attr if isinstance(c.func, ast.Attribute) else (
+            c.func.id if isinstance(c.func, ast.Name) else "")
+        if "stereo_change" not in fname:
+            continue
+        v = c.keywords[0].value
+        mp = None
+        if isinstance(v, ast.DictComp) and len(v.generators) == 1 and \
+                not v.generators[0].ifs:
+            g = v.generators[0]
+            it = g.iter
+            if isinstance(it, ast.Call) and isinstance(
+                    it.func, ast.Attribute) and it.func.attr == "items" and \
+                    isinstance(g.target, ast.Tuple) and len(
+                    g.target.elts) == 2 and all(
+                    isinstance(x, ast.Name) for x in g.target.elts):
+                a_, b_ = g.target.elts[0].id, g.target.elts[1].id
+                tab = table_of(it.func.value, rv.node)
+                if tab is not None:
+                    # for member, keyword in TABLE.items(): {keyword: d[member]}
+                    if norm(v.key) == b_ and isinstance(
+                            v.value, ast.Subscript) and norm(
+                            v.value.slice) == a_:
+                        mp = dict(tab)
+                else:
+                    # for member, stereo in d.items(): {K(member): stereo}
+                    if norm(v.value) == b_:
+                        if norm(v.key) == f"{a_}.value":
+                            mp = {m_: enum_vals.get(m_) for m_ in enum_vals}
+                        elif isinstance(v.key, ast.Subscript) and norm(
+                                v.key.slice) == a_:
+                            tab2 = table_of(v.key.value, rv.node)
+                            if tab2 is not None:
+                                mp = dict(tab2)
+        res_.append((fname, mp, c))
+    return res_
+
+
 def check_overlays(prog: Program, res: Result) -> None:
     K = "StereoCondensedReactionGraph"
     for meth, role in (("reactant", "BROKEN"), ("product", "FORMED"),
@@ -361,10 +446,37 @@ def check_overlays(prog: Program, res: Result) -> None:
                             rv.loc(node), f"{inst}: found `{norm(v)}`",
                             instance=inst)
     if n == 0 and "stereo_change" in utext(rv.node):
-        res.unrecognised("R-ROLE-TABLE", "SCRG.reverse_reaction rebuilds the "
-                         "change dictionaries", rv.loc(),
-                         "no {fleeting, broken, formed} dictionary literal; "
-                         "the roles are swapped in another way")
+        # the swap written as a table driven spread:
+        #   set_x_stereo_change(**{TABLE[c]: s for c, s in d.items()})
+        #   set_x_stereo_change(**{kw: d[c] for c, kw in TABLE.items()})
+        maps = _role_spreads(prog, rv)
+        if not maps:
+            res.unrecognised("R-ROLE-TABLE", "SCRG.reverse_reaction rebuilds "
+                             "the change dictionaries", rv.loc(),
+                             "no {fleeting, broken, formed} dictionary "
+                             "literal and no table driven spread of the roles")
+        want_map = {"FLEETING": "fleeting", "FORMED": "broken",
+                    "BROKEN": "formed"}
+        for setter, mp, node in maps:
+            inst = f"SCRG.reverse_reaction: {setter} receives the swapped roles"
+            if mp is None:
+                res.unrecognised("R-ROLE-TABLE", inst, rv.loc(node),
+                                 f"`{norm(node, 80)}` not understood")
+            elif mp == want_map:
+                res.ok("R-ROLE-TABLE", inst, rv.loc(node))
+            else:
+                res.bad("R-ROLE-TABLE", f"{rv.short}: {setter} {mp}",
+                        rv.loc(node), f"{inst}: the call passes "
+                        f"{ {k: v for k, v in sorted(mp.items())} } (role of "
+                        "the stored descriptor -> keyword), expected "
+                        f"{want_map}: descriptors stay on their old side",
+                        instance=inst)
+        seen = {m_[0] for m_ in maps}
+        if maps and seen != {"set_atom_stereo_change",
+                             "set_bond_stereo_change"}:
+            res.bad("R-ROLE-TABLE", f"{rv.short}: change dictionaries",
+                    rv.loc(), "SCRG.reverse_reaction re-stores only "
+                    f"{sorted(seen)} with swapped roles")
     elif n < 2:
         res.bad("R-ROLE-TABLE", f"{rv.short}: change dictionaries",
                 rv.loc(), "SCRG.reverse_reaction does not rebuild both the "
@@ -642,8 +754,37 @@ def check_reverse_total(prog: Program, res: Result) -> None:
             res.ok("R-REVERSE-TOTAL", inst, rv.loc())
 
 
+def check_reverse_pure(prog: Program, res: Result) -> None:
+    from ..absint import Interp, In
+    res.rule("R-DERIVE-PURE", "reverse_reaction / reactant / product have no "
+             "write effect on the graph they are called on (ownership "
+             "interpreter over the resolved call chain): the reversed graph "
+             "is built on a copy whose change dictionaries are its own, "
+             "otherwise reversing rewrites the original as well and "
+             "`g.reverse_reaction()` changes what `g.reactant()` returns")
+    for K in ("CondensedReactionGraph", "StereoCondensedReactionGraph"):
+        for meth in ("reverse_reaction", "reactant", "product"):
+            fi = prog.resolve_method(K, meth)
+            if fi is None:
+                continue
+            I = Interp(prog)
+            out = I.call_method(K, meth, I.input(K, "self"))
+            inst = f"{K}.{meth} does not modify self"
+            if isinstance(out, In):
+                res.bad("R-DERIVE-PURE", f"{K}.{meth} returns self", fi.loc(),
+                        f"{inst}: returns its input", instance=inst)
+            elif I.events:
+                ev = I.events[0]
+                res.bad("R-DERIVE-PURE", f"{ev.func}: {ev.stmt}", ev.where,
+                        f"{inst}: {ev.kind} on self.{ev.slot} at "
+                        f"`{ev.stmt}`", instance=inst)
+            else:
+                res.ok("R-DERIVE-PURE", inst, fi.loc())
+
+
 def run(prog: Program, res: Result, tier: str) -> None:
     check_reverse_total(prog, res)
+    check_reverse_pure(prog, res)
     from .common import check_setter_once
     K_ = prog.classes["StereoCondensedReactionGraph"]
     check_setter_once(prog, res, [K_.methods.get(m) for m in (
